@@ -485,3 +485,131 @@ class Report:
             "OK" if code == 0 else "FAIL", self.prop, self.tier, self.seed, self.evaluations,
             len(self.nontrivial_digests), len(self.violations), wall))
         return code
+
+
+# --------------------------------------------------------------------------
+# crash-isolating runner for compiled workloads: own fork pool with journaling.
+# A worker writes "S <i>" before a case and "R <i> <json>" after it; if it dies
+# in between, the parent knows which case killed it and restarts the slice.
+
+def run_forked(fn, check, seed, indices, cfg=None, jobs=None, deadline=None, setup=None):
+    import select
+    jobs = jobs or env_jobs()
+    indices = list(indices)
+    slices = [indices[k::jobs] for k in range(jobs)]
+    slices = [s for s in slices if s]
+    results = {}
+    limit = (cfg or {}).get("case_timeout_s", 30) if isinstance(cfg, dict) else 30
+
+    def spawn(todo):
+        r, w = os.pipe()
+        pid = os.fork()
+        if pid == 0:
+            os.close(r)
+            code = 0
+            try:
+                import faulthandler
+                faulthandler.enable()
+                out = os.fdopen(w, "w")
+                signal.signal(signal.SIGALRM, _alarm)
+                if setup:
+                    setup()
+                for i in todo:
+                    out.write("S %d\n" % i)
+                    out.flush()
+                    try:
+                        signal.setitimer(signal.ITIMER_REAL, limit)
+                        try:
+                            res = fn(check, seed, i, cfg)
+                        finally:
+                            signal.setitimer(signal.ITIMER_REAL, 0)
+                    except CaseTimeout:
+                        res = {"harness_error": "case %s:%d:%d exceeded %ss (watchdog)" % (check, seed, i, limit), "timeout": True}
+                    except Exception:
+                        res = {"harness_error": traceback.format_exc()}
+                    out.write("R %d %s\n" % (i, json.dumps(res, default=repr)))
+                    out.flush()
+                    if deadline and time.time() > deadline:
+                        break
+            except BaseException:
+                code = 3
+            finally:
+                os._exit(code)
+        os.close(w)
+        return {"pid": pid, "fd": r, "buf": b"", "todo": list(todo), "cur": None}
+
+    workers = [spawn(s) for s in slices]
+    while workers:
+        rl, _, _ = select.select([wk["fd"] for wk in workers], [], [], 5.0)
+        for wk in list(workers):
+            if wk["fd"] not in rl:
+                continue
+            data = os.read(wk["fd"], 1 << 16)
+            if data:
+                wk["buf"] += data
+                while b"\n" in wk["buf"]:
+                    line, wk["buf"] = wk["buf"].split(b"\n", 1)
+                    line = line.decode()
+                    if line.startswith("S "):
+                        wk["cur"] = int(line[2:])
+                    elif line.startswith("R "):
+                        _, i, js = line.split(" ", 2)
+                        results[int(i)] = json.loads(js)
+                        wk["todo"].remove(int(i))
+                        wk["cur"] = None
+                continue
+            # EOF: worker finished or died
+            os.close(wk["fd"])
+            _, status = os.waitpid(wk["pid"], 0)
+            workers.remove(wk)
+            if wk["cur"] is not None:
+                sig = os.WTERMSIG(status) if os.WIFSIGNALED(status) else None
+                results[wk["cur"]] = {"crash": sig if sig is not None else "exit %s" % os.WEXITSTATUS(status)}
+                wk["todo"].remove(wk["cur"])
+                if wk["todo"] and not (deadline and time.time() > deadline):
+                    workers.append(spawn(wk["todo"]))
+    return sorted(results.items())
+
+
+def run_one_forked(fn, *args, timeout=120):
+    """Run fn(*args) in a forked child; returns ('ok', result) | ('crash', signal) | ('timeout', None)."""
+    r, w = os.pipe()
+    pid = os.fork()
+    if pid == 0:
+        os.close(r)
+        try:
+            res = fn(*args)
+            with os.fdopen(w, "w") as f:
+                f.write(json.dumps(res, default=repr))
+            os._exit(0)
+        except BaseException:
+            try:
+                with os.fdopen(w, "w") as f:
+                    f.write(json.dumps({"harness_error": traceback.format_exc()}))
+            except Exception:
+                pass
+            os._exit(0)
+    os.close(w)
+    t0 = time.time()
+    data = b""
+    import select
+    while True:
+        rl, _, _ = select.select([r], [], [], 1.0)
+        if rl:
+            chunk = os.read(r, 1 << 16)
+            if not chunk:
+                break
+            data += chunk
+        elif time.time() - t0 > timeout:
+            os.kill(pid, signal.SIGKILL)
+            os.waitpid(pid, 0)
+            os.close(r)
+            return ("timeout", None)
+    os.close(r)
+    _, status = os.waitpid(pid, 0)
+    if os.WIFSIGNALED(status):
+        return ("crash", os.WTERMSIG(status))
+    try:
+        return ("ok", json.loads(data.decode()))
+    except ValueError:
+        return ("crash", "no result (exit %s)" % os.WEXITSTATUS(status))
